@@ -204,6 +204,21 @@ def axis_extent_obligations(ctx, fn_info, rule: str | None = None) -> int:
                     ctx.violation(fn_info, slot, exp, "both components of a coordinate are bounded by the extent of one axis: correct only on square grids", node=cmp_, rule=rule)
                 else:
                     ctx.stat("axis_extent_comparisons_not_classified")
+    # flat cell indices: `major * stride + minor` - the stride must be the extent of the minor component's axis
+    for b in [n for n in ast.walk(fn) if isinstance(n, ast.BinOp) and isinstance(n.op, ast.Add)]:
+        for mul, minor in ((b.left, b.right), (b.right, b.left)):
+            if not (isinstance(mul, ast.BinOp) and isinstance(mul.op, ast.Mult)):
+                continue
+            for major, stride in ((mul.left, mul.right), (mul.right, mul.left)):
+                ax = extent_axis(stride)
+                km, kn = ty.kind(major), ty.kind(minor)
+                if ax is None or not (isinstance(km, tuple) and isinstance(kn, tuple)) or km[1] == kn[1]:
+                    continue
+                n_judged += 1
+                slot = {"flat_index": X.U(b), "major_component": km[1], "minor_component": kn[1], "stride": X.U(stride), "stride_axis": ax}
+                ctx.judge(fn_info, ax == kn[1], slot,
+                          "a flat cell index `major * stride + minor` uses the extent of the minor component's axis as stride (row * n_cols + col)",
+                          "distinct cells of an oblong grid collide in the flat index (or indices run out of range): membership tests confuse cells", node=b, rule=rule)
     return n_judged
 
 
@@ -242,7 +257,7 @@ def _fixture_selfcheck(ctx) -> None:
     for f in fx.functions.values():
         axis_extent_obligations(fctx, f, rule="fixture")
     bad = {o.construct.rsplit(".", 1)[-1] for o in fctx.obligations if o.verdict == VIOLATION}
-    want = {"bad_vector_vs_one_axis", "bad_swapped_component", "bad_edges"}
+    want = {"bad_vector_vs_one_axis", "bad_swapped_component", "bad_edges", "bad_flat_index"}
     if bad != want:
         raise AnalysisError(f"positive fixture fixtures/dims_pkg not classified as expected: flagged {sorted(bad)}, wanted {sorted(want)}")
     ctx.note(f"positive fixture fixtures/dims_pkg: {len(want)} seeded row/column confusions flagged, good twins accepted")
@@ -264,7 +279,7 @@ def make_rule(prop: str, rule_id: str):
             # normalisation may duplicate an expression (copy propagation): one obligation per distinct comparison
             keep = []
             for o in ctx.obligations[before:]:
-                k = (o.construct, o.slot["comparison"], o.slot["operand"], o.verdict)
+                k = (o.construct, o.slot.get("comparison", o.slot.get("flat_index")), o.slot.get("operand", ""), o.verdict)
                 if k not in seen:
                     seen.add(k)
                     keep.append(o)
